@@ -1,7 +1,7 @@
 """rebinding of names inside the namespace of a module under test (by name and by identity), and env stubs"""
 import contextlib
 import z3
-from .sym import SInt, ZInt, assume, fresh, note
+from .sym import SInt, ZInt, assume, fresh, note, note_fresh
 
 
 @contextlib.contextmanager
@@ -52,12 +52,14 @@ class SymRng:
         if hi is None:
             lo, hi = 0, lo
         v = ZInt.var(fresh("rrange"))
+        note_fresh(v.e)
         assume(z3.And(v.e >= ZInt.lift(lo), v.e < ZInt.lift(hi)))
         self.calls.append(("randrange", lo, hi, v))
         return v
 
     def randint(self, lo, hi):
         v = ZInt.var(fresh("rint"))
+        note_fresh(v.e)
         assume(z3.And(v.e >= ZInt.lift(lo), v.e <= ZInt.lift(hi)))
         self.calls.append(("randint", lo, hi, v))
         return v
